@@ -284,6 +284,83 @@ static void op_adj(const Toks& t) {
   catch (const Exception::base& e) { std::cout << "throw base\n"; }
 }
 
+// homrunF m n nb | row_1: c v c v .. | .. | row_m | rhs | d b es | .. (nb blocks)
+// the whole Homogenization::run on an AdjInputData: homogenised rhs and the CRS arrays of the
+// homogenised sparse matrix, read through the public API only.  `total_scaled_nonzeroes` (the
+// capacity of the result) and `rcnt_` are not observable: `-` is printed for the first, rows()
+// for the second (a result whose rows are not all started makes the ptr list differ / ASan fire).
+// `refused` = input on which the call is undefined (decided here, the library is not called).
+static bool all_digits(const std::string& s) {
+  if (s.empty()) return false;
+  for (char c : s) if (c < '0' || c > '9') return false;
+  return true;
+}
+static void op_homrun(const Toks& t) {
+  auto g = split_bar(t, 1);
+  if (g.empty() || g[0].size() != 3 || !all_digits(g[0][0]) || !all_digits(g[0][1]) || !all_digits(g[0][2])) {
+    std::cout << "bad-op\n"; return;
+  }
+  const int m = std::stoi(g[0][0]), n = std::stoi(g[0][1]), nb = std::stoi(g[0][2]);
+  if ((long)g.size() != 1L + m + 1 + nb) { std::cout << "bad-op\n"; return; }
+  std::vector<std::vector<std::pair<int, double>>> rows(m);
+  long nnz = 0;
+  bool cols_ok = true;
+  for (int i = 0; i < m; i++) {
+    const Toks& r = g[1 + i];
+    if (r.size() % 2) { std::cout << "bad-op\n"; return; }
+    for (size_t k = 0; k < r.size(); k += 2) {
+      if (!all_digits(r[k])) { std::cout << "bad-op\n"; return; }
+      int c = std::stoi(r[k]);
+      double v = vp::unhex(r[k + 1]);
+      if (c < 1 || c > n) cols_ok = false;
+      rows[i].push_back(std::make_pair(c, v));
+      nnz++;
+    }
+  }
+  Vec<> rhs; mk_vec(g[1 + m], rhs);
+  std::vector<CovMat<>> blocks(nb);
+  long floats = 0; int total = 0;
+  for (int i = 0; i < nb; i++) {
+    if (!mk_cov(g[2 + m + i], blocks[i])) { std::cout << "bad-op\n"; return; }
+    floats += blocks[i].end() - blocks[i].begin();
+    total += blocks[i].dim();
+  }
+  if (!cols_ok || total != m || rhs.dim() != m) { std::cout << "refused\n"; return; }
+
+  AdjInputData aid;
+  SparseMatrix<>* A = new SparseMatrix<>(nnz, m, n);
+  for (int i = 0; i < m; i++) {
+    A->new_row();
+    for (auto& e : rows[i]) A->add_element(e.second, e.first);
+  }
+  aid.set_mat(A);
+  BlockDiagonal<>* bd = new BlockDiagonal<>(nb, floats);
+  for (auto& b : blocks) bd->add_block(b.dim(), b.bandWidth(), b.begin());
+  aid.set_cov(bd);
+  aid.set_rhs(rhs);
+  try {
+    Homogenization<> h(&aid);
+    const Vec<>& pr = h.rhs();
+    const SparseMatrix<>* sm = h.mat();
+    std::ostringstream o;
+    o << "ok - pr" << show_vec(pr) << " sm " << sm->rows() << " " << sm->columns() << " " << sm->rows()
+      << " " << sm->nonzeroes() << " ptr";
+    const int R = sm->rows();
+    if (R >= 1) {
+      const double* base = sm->begin(1);
+      for (int r = 1; r <= R; r++) o << " " << (long)(sm->begin(r) - base);
+      o << " " << (long)(sm->end(R) - base);
+    } else o << " 0";
+    o << " ind";
+    for (int r = 1; r <= R; r++)
+      for (const int* p = sm->ibegin(r); p != sm->iend(r); ++p) o << " " << *p;
+    o << " val";
+    for (int r = 1; r <= R; r++)
+      for (const double* p = sm->begin(r); p != sm->end(r); ++p) o << " " << vp::hex(*p);
+    std::cout << o.str() << "\n";
+  } catch (const Exception::matvec& e) { std::cout << "throw " << excname(e) << "\n"; }
+}
+
 int main() {
   std::string line;
   bool is_case;
@@ -303,6 +380,7 @@ int main() {
       else if (op == "bdF") op_bd(t);
       else if (op == "sweepF") op_sweep(t);
       else if (op == "denseF") op_dense(t);
+      else if (op == "homrunF") op_homrun(t);
       else if (op == "adj") op_adj(t);
       else std::cout << "bad-op\n";
     } catch (const std::exception& e) { std::cout << "bad-op\n"; }
